@@ -1,6 +1,8 @@
 package main
 
 import (
+	"fmt"
+	"go/token"
 	"go/types"
 
 	"golang.org/x/tools/go/ssa"
@@ -20,23 +22,105 @@ func (vc *VC) declareMapSort(ks, vs Sort) {
 	vc.addGDef(&GDef{Name: string(ms), Decl: "(declare-datatypes ((" + string(ms) + " 0)) (((mk." + string(ms) + " (mdom." + string(ms) + " (Array " + string(ks) + " Bool)) (mval." + string(ms) + " (Array " + string(ks) + " " + string(vs) + ")) (msize." + string(ms) + " Int)))))"})
 }
 
+// ---------------------------------------------------------------------------
+// Channels (only the shapes of compressor_cache.go). A channel is shared
+// state: its fill level is whatever other goroutines make it (interference
+// havoc, DESIGN §3.7), so nothing observed about it earlier can justify a
+// blocking operation later.
+
+func (fr *Frame) chanCapTerm(a Term, st *State) Term {
+	g := fr.vc.ghost(st, "$ch.cap", Sort("(Array Int Int)"))
+	return Sel(g, a, SInt)
+}
+
+func (fr *Frame) chanLen(a Term, st *State) Term {
+	vc := fr.vc
+	vc.assumptions["channels: fill level havocked at every read (interference), 0 <= len <= cap"] = true
+	v := vc.Fresh("chlen", SInt)
+	st.Assume(And(Le(IntLit(0), v), Le(v, fr.chanCapTerm(a, st))))
+	return v
+}
+
+func (fr *Frame) chanCap(a Term, st *State) Term { return fr.chanCapTerm(a, st) }
+
 func (fr *Frame) execRecv(x *ssa.UnOp, st *State) *State {
-	fail("%s: channel receive outside the subset", fr.vc.posOf(x.Pos()))
-	return nil
+	vc := fr.vc
+	vc.Oblige("blocking", "recv#"+itoa(vc.nextCount("blocking")), x.Pos(), st, False, "channel receive outside select-with-default may block")
+	fr.vals[x] = TV(fr.recvValue(x.Type(), st))
+	return st
 }
+
+// recvValue: an object taken out of a pool channel (ghost flag frompool).
+func (fr *Frame) recvValue(t types.Type, st *State) Term {
+	vc := fr.vc
+	if tt, ok := t.(*types.Tuple); ok {
+		t = tt.At(0).Type()
+	}
+	srt := vc.specialSort(t)
+	v := vc.Fresh("recv", srt)
+	if wf := vc.wfValue(v, t, st); wf.S != "true" {
+		st.Assume(wf)
+	}
+	if srt == SPtr {
+		g := vc.ghost(st, "$g.frompool", Sort("(Array Ptr Int)"))
+		st.Assume(Eq(Sel(g, v, SInt), IntLit(1)))
+	}
+	return v
+}
+
 func (fr *Frame) execMakeChan(x *ssa.MakeChan, st *State) *State {
-	fail("%s: make(chan) outside the subset", fr.vc.posOf(x.Pos()))
-	return nil
+	vc := fr.vc
+	id := vc.newObject(st)
+	g := vc.ghost(st, "$ch.cap", Sort("(Array Int Int)"))
+	vc.setGhost(st, "$ch.cap", Sto(g, id, fr.val(x.Size).T))
+	fr.vals[x] = TV(id)
+	return st
 }
+
 func (fr *Frame) execSend(x *ssa.Send, st *State) *State {
-	fail("%s: channel send outside the subset", fr.vc.posOf(x.Pos()))
-	return nil
+	vc := fr.vc
+	vc.Oblige("blocking", "send#"+itoa(vc.nextCount("blocking")), x.Pos(), st, False,
+		"channel send outside select-with-default may block: the channel can be full whatever was observed before")
+	fr.noteSend(fr.val(x.X), x.Pos(), st)
+	return st
 }
+
+// noteSend: call-site obligations registered as `callsite chansend ...` (arg0 is the value sent).
+func (fr *Frame) noteSend(v Val, pos token.Pos, st *State) {
+	vc := fr.vc
+	if vc.ct == nil || vc.dry > 0 {
+		return
+	}
+	if v.IsT && v.T.Sort == SPtr {
+		v = TV(App(SIface, "mkiface", IntLit(1), v.T))
+	}
+	for _, cl := range vc.ct.CallSites["chansend"] {
+		g := fr.evalCallSite(cl, Term{}, []Val{v}, st)
+		vc.callCount++
+		vc.Oblige("callsite", fmt.Sprintf("chansend#%d.%s", vc.callCount, cl.Label), pos, st, g, cl.Src)
+	}
+}
+
 func (fr *Frame) execSelect(x *ssa.Select, st *State) *State {
-	fail("%s: select outside the subset", fr.vc.posOf(x.Pos()))
-	return nil
-}
-func (fr *Frame) chanCap(a Term, st *State) Term {
-	fail("cap(chan) outside the subset")
-	return Term{}
+	vc := fr.vc
+	if x.Blocking {
+		vc.Oblige("blocking", "select#"+itoa(vc.nextCount("blocking")), x.Pos(), st, False, "select without default may block")
+	}
+	idx := vc.Fresh("selidx", SInt)
+	lo := IntLit(0)
+	if !x.Blocking {
+		lo = IntLit(-1)
+	}
+	st.Assume(And(Le(lo, idx), Lt(idx, IntLit(int64(len(x.States))))))
+	tuple := []Val{TV(idx), TV(vc.Fresh("recvok", SBool))}
+	for _, s := range x.States {
+		if s.Dir == types.RecvOnly {
+			et := s.Chan.Type().Underlying().(*types.Chan).Elem()
+			tuple = append(tuple, TV(fr.recvValue(et, st)))
+		} else {
+			fr.noteSend(fr.val(s.Send), x.Pos(), st)
+		}
+	}
+	fr.vals[x] = Val{Tuple: tuple}
+	return st
 }
